@@ -172,6 +172,15 @@ func genGrammar(r *rng, o gramOpts) *gSpec {
 				if r.chance(1, 3) {
 					p.terms = append(p.terms, gTerm{kind: 0, name: pick(r, g.tokens), card: "?"})
 				}
+			case shape == 5 && j == 0 && nt >= 3:
+				// two ADJACENT lists whose elements have the same Go type (tokens), then a closing token: the value
+				// under the first element of the second list is a list of the same type
+				a, b, cl := g.tokens[0], g.tokens[1], g.tokens[2]
+				p.terms = []gTerm{{kind: 0, name: a, card: pick(r, []string{"+", "*", "+"})}, {kind: 0, name: b, card: pick(r, []string{"+", "+", "*"})}, {kind: 0, name: cl}}
+				if r.chance(1, 3) {
+					p.terms = append([]gTerm{{kind: 0, name: cl}}, p.terms...)
+				}
+				used[a], used[b], used[cl] = true, true, true
 			case shape == 4 && j == 0 && i+1 < nr:
 				// repetition of another rule: r = r'+ | r'* T
 				other := names[i+1]
